@@ -29,10 +29,11 @@ func (t *Teamserver) Died(Agent *agent.Agent) {
 
 func (t *Teamserver) UnlinkFromAll(Agent *agent.Agent) {
 	// remove all links from agent
-	for i := range Agent.Pivots.Links {
-		t.LinkRemove(Agent, Agent.Pivots.Links[i], false)
-		Agent.Pivots.Links = append(Agent.Pivots.Links[:i], Agent.Pivots.Links[i+1:]...)
+	// (iterate over a copy: the list is emptied while it is walked)
+	for _, LinkAgent := range append([]*agent.Agent{}, Agent.Pivots.Links...) {
+		t.LinkRemove(Agent, LinkAgent, false)
 	}
+	Agent.Pivots.Links = nil
 
 	// remove agent from parent's link
 	for _, ParentAgent := range t.Agents.Agents {
